@@ -4,7 +4,7 @@ From V.lib Require Import Base.
    coq/c19/C19Gen*.v (see their banners); imported first so that the names of the C19 model win *)
 From V.c19 Require Import C19GenAvcModel C19GenAvcSpec C19GenHevcModel C19GenHevcSpec.
 From V.c19 Require Import C19BoxCodec C19BoxModel.
-From V.c19 Require Import C19Model C19RecModel C19TreeModel C19FragModel C19DimsProofs.
+From V.c19 Require Import C19Model C19RecModel C19TreeModel C19FragModel C19DimsProofs C19Ac3Model.
 Require Import ExtrOcamlBasic.
 Separate Extraction
   avc_info st trak sentry scfg avcc hvcc dac3 ec3sub dec3 mchild mhdr outcome op desc
@@ -12,6 +12,7 @@ Separate Extraction
   moov_add_trak elng_payload elng_decode trak_shape stpp_payload stpp_decode
   avcrec hvcrec avcrec_size avcrec_encode avcrec_decode avcrec_canon avcrec_of
   hvcrec_size hvcrec_encode hvcrec_decode hvcrec_of
+  dac3_decode dec3_decode dac3_payload_x dec3_payload_x dac3_okb dec3_okb
   get_trex get_trex_dsdi c15_avc_parser c15_hevc_parser
   tree_of init_encode roundtrip_ok is_fragmented_init has_trex encode_seq size_box decode_file args_okb enc_fits
   nalu_sps nalu_pps sps_valid pps_valid display_width display_height compat_byte eff_chroma_format_idc has_chroma_block
